@@ -383,7 +383,10 @@ def dispatch(ctx, chk):
             finally:
                 ev.stubs.pop(SI, None)
             inst = "dispatch[%s,%s]" % (m, s)
-            if not seen or not returns(outs):
+            if not seen:
+                chk.unknown("R11.7", "%s: the index sampler (_sample_indices) is not called on this path: dispatch not decided" % inst)
+                continue
+            if not returns(outs):
                 chk.violation("R11.7", BS, inst, "%d sampler calls, %d return paths" % (len(seen), len(returns(outs))), "one call of _sample_indices and a sample", ctx.where(BS))
                 continue
             for b in seen:
